@@ -228,4 +228,21 @@ mod tests {
         assert_eq!(mul_inv(0), 0);
         assert_eq!(mul_inv(1), 1);
     }
+
+    // mul(mul(x, k), mul_inv(k)) == x for all 2^32 pairs (the axiom the IDEA round-trip contract rests on);
+    // ~25 s with --release:  cargo test --release --offline idea -- --ignored
+    #[test]
+    #[ignore]
+    fn group_axiom_exhaustive() {
+        let mut k: u32 = 0;
+        while k < 0x10000 {
+            let i = mul_inv(k as u16);
+            let mut x: u32 = 0;
+            while x < 0x10000 {
+                assert_eq!(mul(mul(x as u16, k as u16), i), x as u16);
+                x += 1;
+            }
+            k += 1;
+        }
+    }
 }
